@@ -906,6 +906,7 @@ func main() {
 	if *out != "" {
 		os.MkdirAll(*out, 0o755)
 		writeIfChanged(filepath.Join(*out, "Catalogue.lean"), sb.String())
+		emitKernel(*repo, *out)
 		js, _ := json.MarshalIndent(facts, "", " ")
 		writeIfChanged(filepath.Join(*out, "catalogue.json"), string(js)+"\n")
 	} else {
